@@ -221,6 +221,19 @@ def rule_display(ctx, sig, body, arg):
         n += 1
     if n == 0:
         raise RuleError('no write! in the body')
+    # every write! of a literal WITHOUT arguments is given its generated format function here (no type information needed); the ones
+    # with arguments are left to explicit (optional) fmtval rules of the contract
+    while True:
+        calls = _macro_calls(body, 'format')
+        k = None
+        for idx, (start, end, inner) in enumerate(calls):
+            args = _split_top_commas(inner)
+            if len(args) == 1 and args[0].startswith('"') and all(kind == 'lit' for kind, v in _parse_format_literal(args[0])):
+                k = idx + 1
+                break
+        if k is None:
+            break
+        sig2, body = rule_fmtval(ctx, sig2, body, str(k))
     ctx.inherent = True
     return sig2, body
 
